@@ -122,6 +122,8 @@ def peval(node: ast.AST, env: Optional[Dict[str, object]] = None):
         if unknown:
             raise NotConst("boolop")
         return last
+    if isinstance(node, ast.NamedExpr):
+        return peval(node.value, env)
     if isinstance(node, ast.IfExp):
         return peval(node.body, env) if _truth(peval(node.test, env)) else peval(node.orelse, env)
     if isinstance(node, ast.Compare):
@@ -260,6 +262,20 @@ def _step(node, facts: Tuple[Tuple[str, object], ...]) -> Tuple[Tuple[str, objec
                 d = dotted(c.func.value)
                 if d:
                     names.add(d)
+    elif node.kind == "test" and any(isinstance(x, ast.NamedExpr) for x in ast.walk(st)):
+        d = dict(facts)
+        for x in ast.walk(st):
+            if isinstance(x, ast.NamedExpr) and isinstance(x.target, ast.Name):
+                for k in list(d):
+                    if _mentions(k, x.target.id):
+                        del d[k]
+                try:
+                    v = peval(x.value, d)
+                    if isinstance(v, (int, str, bytes, bool, type(None), _Abstract, float)):
+                        d[x.target.id] = v
+                except NotConst:
+                    pass
+        return tuple(sorted(d.items(), key=lambda kv: kv[0]))
     else:
         return facts
     if not names:
@@ -2393,6 +2409,9 @@ def resolve_locals(func, expr, depth: int = 3):
     defs = {}
     counts: Dict[str, int] = {}
     for st in walk_local(func):
+        if isinstance(st, ast.NamedExpr) and isinstance(st.target, ast.Name):       # (name := expr) binds like name = expr
+            counts[st.target.id] = counts.get(st.target.id, 0) + 1
+            defs[st.target.id] = st.value
         if isinstance(st, (ast.Assign, ast.AugAssign, ast.AnnAssign, ast.For)):
             for t in assigned_targets(st):
                 if isinstance(t, ast.Name):
@@ -2401,6 +2420,12 @@ def resolve_locals(func, expr, depth: int = 3):
                         defs[t.id] = st.value
     params = {a.arg for a in getattr(func.args, "args", [])} if hasattr(func, "args") else set()
     mapping = {k: v for k, v in defs.items() if counts.get(k) == 1 and k not in params}
+
+    class _W(ast.NodeTransformer):
+        def visit_NamedExpr(self, node):
+            return self.visit(node.value)
+    if any(isinstance(x, ast.NamedExpr) for x in ast.walk(expr)):
+        expr = _W().visit(_clone(expr))
     if not mapping:
         return expr
     new = _Subst(mapping).visit(_clone(expr))
